@@ -1,0 +1,60 @@
+//go:build verif
+
+// Contracts for the ECDSA signature codec and verifier of this curve (comment-only; installed by /verif/gcv
+// gen-contracts). Layer "bigint big.Int": a *big.Int holds a mathematical integer and the methods of math/big are
+// interpreted by their documented meaning (assumed contracts of math/big); be(b) is the big-endian value of a
+// byte window; q is the order of the scalar field (fr.Modulus(), the pinned modulus).
+
+package ecdsa
+
+//@ func (hash.Hash).Reset
+//@ assumed interface hash.Hash: Reset touches only the hash object
+//@ end
+
+//@ func (hash.Hash).Write
+//@ assumed interface hash.Hash (io.Writer): Write reads p, does not retain it and touches only the hash object
+//@ end
+
+//@ func (hash.Hash).Sum
+//@ assumed interface hash.Hash: Sum(nil) returns a newly allocated slice holding the digest
+//@ end
+
+//@ func Signature.SetBytes
+//@ layer bigint big.Int
+//@ option field fr
+//@ option nomerge
+//@ ensures[accept] isnil(result1) ==> len(buf) == 2*sizeFr && 0 < be(buf[0:sizeFr]) && be(buf[0:sizeFr]) < q && 0 < be(buf[sizeFr:2*sizeFr]) && be(buf[sizeFr:2*sizeFr]) < q
+//@ ensures[complete] len(buf) == 2*sizeFr && 0 < be(buf[0:sizeFr]) && be(buf[0:sizeFr]) < q && 0 < be(buf[sizeFr:2*sizeFr]) && be(buf[sizeFr:2*sizeFr]) < q ==> isnil(result1)
+//@ ensures[count] isnil(result1) ==> result0 == 2*sizeFr
+//@ ensures[value] isnil(result1) ==> be(sig.R) == be(buf[0:sizeFr]) && be(sig.S) == be(buf[sizeFr:2*sizeFr])
+//@ modifies sig
+//@ end
+
+//@ func PublicKey.Verify
+//@ layer bigint big.Int ring fp.Element
+//@ option field fr
+//@ option distribute
+//@ option nomerge
+//@ option opaque HashToInt JointScalarMultiplicationBase
+//@ ghost m = 0
+//@ ghost u1 = 0
+//@ ghost u2 = 0
+//@ ghost onkey = false
+//@ ghost ux = 0
+//@ ghost uz = 0
+//@ cut after call HashToInt #1
+//@ + ghost m = *callresult
+//@ cut after call JointScalarMultiplicationBase #1
+//@ + ghost u1 = *callarg2
+//@ + ghost u2 = *callarg3
+//@ + ghost onkey = same(callarg1, &publicKey.A)
+//@ + ghost ux = callarg0.X
+//@ + ghost uz = callarg0.Z
+//@ ghost-final r = be(sigBin[0:sizeFr])
+//@ ghost-final s = be(sigBin[sizeFr:2*sizeFr])
+//@ ensures[decoded] isnil(result1) ==> len(sigBin) == 2*sizeFr && 0 < r && r < q && 0 < s && s < q
+//@ ensures[refused] !isnil(result1) ==> !result0
+//@ ensures[scalars] isnil(result1) ==> onkey && u1 == bigmod(m * bigmodinv(s, q), q) && u2 == bigmod(r * bigmodinv(s, q), q)
+//@ ensures[equation] isnil(result1) ==> result0 == (bigmod(toint(ux * inv(uz * uz)), q) == r)
+//@ modifies nothing
+//@ end
